@@ -59,7 +59,7 @@ type tEpRow struct {
 	Doc   tFlat `json:"doc"`
 }
 type c35Table struct {
-	Part    string    `json:"part"`
+	Kinds   int       `json:"kinds"`
 	MaxLen  int       `json:"maxlen"`
 	Revs    []tRevRow `json:"revs"`
 	Strs    []tStrRow `json:"strs"`
